@@ -8,8 +8,31 @@ const PLANT: &str = "ɮ";
 
 /// plant a mandatory literal /ɮ/ (which occurs in no word): in every comma alternative of
 /// the input; for insertion rules in every environment of the context.
+/// the structure items of the grammar with /ɮ/ as a further mandatory member, at the end (0) or at the start (1)
+fn planted_structure(item: &str, at_start: bool) -> Option<&'static str> {
+    Some(match (item, at_start) {
+        ("⟨CV⟩", false) => "⟨CVɮ⟩", ("⟨CV⟩", true) => "⟨ɮCV⟩",
+        ("⟨C...⟩", false) => "⟨C...ɮ⟩", ("⟨C...⟩", true) => "⟨ɮC...⟩",
+        ("⟨..V⟩=1", false) => "⟨..Vɮ⟩=1", ("⟨..V⟩=1", true) => "⟨ɮ..V⟩=1",
+        _ => return None,
+    })
+}
+
 pub fn plant(r: &GenRule, variant: usize) -> Option<GenRule> {
     let mut p = r.clone();
+    if variant >= 3 {
+        // inside a structure: every input alternative (insertion: every context environment) must hold a structure, whose first one gets the plant
+        let at_start = variant == 4;
+        let mut plant_in = |items: &mut Vec<&'static str>| -> bool { for it in items.iter_mut() { if let Some(x) = planted_structure(it, at_start) { *it = x; return true; } } false };
+        if r.is_insertion() {
+            if let Some(x) = p.special.as_mut() { return if plant_in(x) { Some(p) } else { None }; }
+            if p.ctx.is_empty() { return None; }
+            for e in p.ctx.iter_mut() { if !(plant_in(&mut e.0) || plant_in(&mut e.1)) { return None; } }
+        } else {
+            for alt in p.ins.iter_mut() { if !plant_in(alt) { return None; } }
+        }
+        return Some(p);
+    }
     if r.is_insertion() {
         if variant == 2 { return None; }
         if let Some(x) = p.special.as_mut() { if variant == 0 { x.push(PLANT); } else { x.insert(0, PLANT); } return Some(p); }
@@ -104,7 +127,7 @@ fn eval_text(text: &str, words: &[(String, CW)], a: &mut Acc) {
 pub fn run() -> i32 {
     let mut r = Report::new("C06");
     let n = if r.thorough() { 4 } else { 3 };
-    r.rule = format!("every rule of rulegen({}) (full documented grammar: sets, optionals, ellipses, structures, variables, alphas, environment sets, special environment, condensed rules) (quick: plus every insertion rule of size 4 and every size-4 rule with an ellipsis inside its input) with a mandatory literal /ɮ/ planted in every input alternative (insertion: in every context environment), at the end, at the start and before the last input item; plus every condensed rule that pairs an insertion alternative with an insertion / substitution / deletion / metathesis alternative over 9 inputs x 3-5 outputs x 5 environments (own or shared), planted likewise; plus blank and comment-only lines; x hand-shaped words{}; whenever the call returns Ok the structural word must equal the input. Non-trivial = rule compiled and the call returned Ok.", n, if r.thorough() { " and all decorated words of W(I4,3)" } else { "" });
+    r.rule = format!("every rule of rulegen({}) (full documented grammar: sets, optionals, ellipses, structures, variables, alphas, environment sets, special environment, condensed rules) (quick: plus every insertion rule of size 4 and every size-4 rule with an ellipsis inside its input) with a mandatory literal /ɮ/ planted in every input alternative (insertion: in every context environment), at the end, at the start and before the last input item, and as an extra member at the end / start of a structure ⟨..⟩ of the input (insertion: of the context); plus every condensed rule that pairs an insertion alternative with an insertion / substitution / deletion / metathesis alternative over 9 inputs x 3-5 outputs x 5 environments (own or shared), planted likewise; plus blank and comment-only lines; x hand-shaped words{}; whenever the call returns Ok the structural word must equal the input. Non-trivial = rule compiled and the call returned Ok.", n, if r.thorough() { " and all decorated words of W(I4,3)" } else { "" });
     r.assumptions.push("thorough: size-4 rules are restricted to those containing a structure, %, $, an ellipsis, an optional, a variable, or an insertion/deletion/metathesis output (the cursor-logic constructs); all size <= 3 rules are included".into());
     let words = decorated_words(r.thorough());
     let mut bases = rulegen::bases_upto(n);
@@ -119,7 +142,7 @@ pub fn run() -> i32 {
         let (b, rest) = &bases[i];
         for rule in rulegen::expand(b, *rest) {
             if thorough && rule.n_items() == 4 && !rule.has(&["⟨", "%", "$", "...", "(", "=", "*", "&", " 1"]) { continue; }
-            for variant in 0..3 {
+            for variant in 0..5 {
                 let Some(p) = plant(&rule, variant) else { continue };
                 let text = p.text();
                 let k = if p.is_insertion() { "insertion" } else if text.contains("> *") { "deletion" } else if text.contains("> &") { "metathesis" } else { "substitution" };
